@@ -1263,6 +1263,13 @@ func genProgram(t *rapid.T, prof *profile, name string) *Program {
 		if g.yieldsInFn == 0 {
 			d.Body = append([]*Stmt{{K: "yield", E: &Expr{K: "var", Name: "a"}}}, d.Body...)
 		}
+		// some API calls are written with their type argument: Yield[T](e), co.YieldFrom[T](it)
+		walkStmts(d.Body, func(s *Stmt) {
+			if (s.K == "yield" || s.K == "yieldfrom") && s.T == "" && g.pct(8, "inst") {
+				s.T = "inst"
+				p.tag("explicitly-instantiated-api-call")
+			}
+		})
 		if prof.excl("break-after-yield-in-switch") {
 			if n := dropSwitchBreaks(d.Body, &g.nextEv, prof.noEv); n > 0 {
 				p.tag("excluded:break-in-yielding-switch")
